@@ -21,6 +21,8 @@ from typing import Union
 
 import numpy as np
 
+from ..process.process import ProcessRepresentation
+
 
 class PayoffDates(Enum):
     """Payoff dates can be deterministic as it is the case for most of the financial products, but in the case
@@ -87,6 +89,10 @@ class Payoff:
 
         :Example: in the case of a lookback option, one needs to retrieve the max(min) of the underlying over [0,T]
         """
+        pass
+
+    def update(self, process_representation) -> None:
+        """Update of the payoff given the representation (identity or log) of the path passed to :func:`process`"""
         pass
 
     def dimension(self) -> int:
@@ -257,6 +263,7 @@ class Barrier(Payoff):
         super().__init__()
         self.vanilla = Vanilla(strike=strike, payoff_type=payoff_type)
         self.barrier = barrier
+        self._path_barrier = barrier  # barrier level in the representation of the processed path
         self.barrier_event = False  # it might be True depending on the spot price
         self.barrier_type = barrier_type
 
@@ -275,16 +282,22 @@ class Barrier(Payoff):
     def __barrier_event_down(self, _, path):
         self.barrier_event = False
         for value in path:
-            if value < self.barrier:
+            if value < self._path_barrier:
                 self.barrier_event = True
                 break
 
     def __barrier_event_up(self, _, path):
         self.barrier_event = False
         for value in path:
-            if value > self.barrier:
+            if value > self._path_barrier:
                 self.barrier_event = True
                 break
+
+    def update(self, process_representation) -> None:
+        if process_representation == ProcessRepresentation.LOG:
+            self._path_barrier = np.log(self.barrier)
+        else:
+            self._path_barrier = self.barrier
 
     def evaluate(self, underlying: float) -> float:
         return self._evaluate_impl(underlying)
